@@ -99,6 +99,7 @@ class Ctx:
             self.samples.append(obj)
 
     def violation(self, mechanism, case, detail):
+        case, detail = writable(case), writable(detail)
         self.viol_total += 1
         self.counters["violations"] += 1
         per = sum(1 for v in self.violations if v["mechanism"] == mechanism)
@@ -157,6 +158,25 @@ def load_check(prop):
     return importlib.import_module("checks." + prop.lower())
 
 
+def writable(v, _depth=0):
+    """A copy that json can always write: integers with more digits than the interpreter converts to text become a
+    marker, other non-JSON objects their repr (cut)."""
+    if isinstance(v, bool) or v is None or isinstance(v, (str, float)):
+        return v
+    if isinstance(v, int):
+        return v if v.bit_length() < 12000 else {"$integer-of-bits": v.bit_length()}
+    if _depth > 400:
+        return "<nested too deeply to write>"
+    if isinstance(v, dict):
+        return {(k if isinstance(k, str) else repr(k)): writable(x, _depth + 1) for k, x in v.items()}
+    if isinstance(v, (list, tuple)):
+        return [writable(x, _depth + 1) for x in v]
+    try:
+        return repr(v)[:300]
+    except Exception:  # noqa: BLE001
+        return "<%s>" % type(v).__name__
+
+
 def run_shard_main(prop, tier, seed, spec_file, out_file):
     t0 = time.time()
     with open(spec_file) as f:
@@ -189,7 +209,7 @@ def run_shard_main(prop, tier, seed, spec_file, out_file):
         res["error"] = "shard crashed: %s: %s\n%s" % (type(e).__name__, e, traceback.format_exc()[-3000:])
     res["wall_s"] = time.time() - t0
     with open(out_file, "w") as f:
-        json.dump(res, f, ensure_ascii=True, default=repr)
+        f.write(json.dumps(writable(res), ensure_ascii=True, default=repr))
 
 
 def witness_files(prop):
